@@ -46,6 +46,19 @@ def run(ctx, replay=None):
         if set(failed) != {victim["id"]}:
             raise CheckError("selftest Repo/%s: expected exactly line %d rejected, got %s" % (what, victim["id"], sorted(failed)[:8]))
         results["repo/" + what] = failed[victim["id"]]
+    # the chain over histories (C01): a certificate the default run did NOT write stops verifying under its issuer's current certificate
+    cand = [(l, e) for l in lines if l["act"]["name"] == "Run" and l["act"]["outcome"] == "ok" and sorted(l["act"]["fl"]) == ["c", "m"] and l["obs"]["result"] == "ok"
+            for e in ("s", "l") if e not in l["act"]["plan"] and l["post"]["art"][e]["cert"] and l["post"]["art"][e]["hash"] != 99 and l["post"]["art"][e]["sigok"]]
+    if not cand:
+        raise CheckError("selftest: no default run that leaves a gopki-produced certificate alone in the recorded trace")
+    v0, e0 = cand[len(cand) // 2]
+    rows = copy.deepcopy(lines)
+    v = [r for r in rows if r["id"] == v0["id"]][0]
+    v["post"]["art"][e0]["sigok"] = False
+    failed = repo.judge(ctx, rows, "chain", "st-chainafterdefault")
+    if set(failed) != {v0["id"]} or "chainAfterDefault" not in failed[v0["id"]]:
+        raise CheckError("selftest Repo/chain after a default run: expected exactly line %d rejected with chainAfterDefault, got %s" % (v0["id"], dict(list(failed.items())[:4])))
+    results["repo/untouched certificate no longer verifies after a default run"] = failed[v0["id"]]
     # ---- (i) certificate decoder: one DER octet changed
     from . import c02, genjudge
     cs = c02.cases(ctx)[:6]
